@@ -81,3 +81,21 @@ Proof.
   split; [vm_compute; reflexivity|]. split; [vm_compute; reflexivity|]. split; [vm_compute; reflexivity|].
   split; [vm_compute; reflexivity|]. apply consistentb_sound. vm_compute. reflexivity.
 Qed.
+
+(* ---- the same over every table a history of true declarations builds (with rows registered by lookups, which are invisible) ----
+   `consistent se tbl` discharged from the declarations themselves (Proofs/DeclareConsistent.v); any units registered in the table
+   by earlier lookups change nothing (Proofs/TableRows.v; functional extensionality). *)
+From Measured Require Import Model.Declare Proofs.EquateFacts Proofs.DeclareConsistent Proofs.TableRows.
+
+Theorem C05_roundtrip_over_declared_tables : forall se bd ds us offs ord fuel, sizes_pos se -> Forall (decl_true se) ds ->
+  let tbl := register_all (fold_left declare ds []) us in
+  forall m a b v w,
+  plan_cert bd (fold_left declare ds []) ord offs fuel a b = true -> plan_cert bd (fold_left declare ds []) ord offs fuel b a = true ->
+  convert bd tbl ord offs fuel m a b = COk v -> convert bd tbl ord offs fuel v b a = COk w -> w == m.
+Proof.
+  intros se bd ds us offs ord fuel Hpos Hds tbl m a b v w C1 C2 H1 H2. subst tbl.
+  rewrite lookups_register_nothing_visible in H1, H2.
+  exact (convert_roundtrip se bd (fold_left declare ds []) offs ord fuel Hpos
+           (true_declarations_consistent se ds [] Hds (consistent_empty se)) m a b v w C1 C2 H1 H2).
+Qed.
+Print Assumptions C05_roundtrip_over_declared_tables.
